@@ -45,6 +45,18 @@ TBackendRecv == /\ Is("BackendRecv")
                 /\ Consume
 TClientDone == Is("ClientDone") /\ ClientDone(E.r, E) /\ Consume
 
+\* counters and gauges read at quiescence (C19): per endpoint every attempt recorded exactly once, as a
+\* success iff the client got a complete response with a success status; total = ok + fail at every scope;
+\* gauges back to zero
+TStats == /\ Is("Stats") /\ \A r \in Reqs : rq[r].phase = "done"
+          /\ \A e \in EP : IF e \in DOMAIN E.ep
+                            THEN /\ E.ep[e].ok = cnt[e].ok /\ E.ep[e].fail = cnt[e].fail
+                                 /\ E.ep[e].total = E.ep[e].ok + E.ep[e].fail
+                                 /\ E.ep[e].gauge = 0 /\ gauge[e] = 0
+                            ELSE cnt[e].ok = 0 /\ cnt[e].fail = 0
+          /\ E.proxy.total = E.proxy.ok + E.proxy.fail
+          /\ UNCHANGED vars /\ l' = l + 1
+
 TSilent == /\ \/ \E r \in Reqs : AttemptEnd(r)
               \/ \E r \in Reqs : \E e \in EP : Refused(r, e)
               \/ \E r \in Reqs : \E e \in EP : BreakerSkip(r, e)
@@ -52,7 +64,7 @@ TSilent == /\ \/ \E r \in Reqs : AttemptEnd(r)
            /\ Silent
 
 TraceInit == Init /\ l = 1
-TraceNext == TReset \/ THealth \/ TRepo \/ TDown \/ TClientSend \/ TBackendRecv \/ TClientDone \/ TSilent
+TraceNext == TReset \/ THealth \/ TRepo \/ TDown \/ TClientSend \/ TBackendRecv \/ TClientDone \/ TStats \/ TSilent
 TraceSpec == TraceInit /\ [][TraceNext]_tvars
 HW == HWMark(l)
 =============================================================================
